@@ -70,7 +70,7 @@ fn c09_layout_t3() {
 #[kani::unwind(33)]
 fn c09_header_footer_empty() {
     let ty: u64 = kani::any();
-    let b = match Builder::new_type(ArraySink::<40>::new(0), ty) {
+    let b = match Builder::verif_new_type_with_cache(ArraySink::<40>::new(0), ty, 0, 0) {
         Ok(b) => b,
         Err(e) => {
             core::mem::forget(e);
@@ -98,6 +98,28 @@ fn c09_header_footer_empty() {
                     "root: any-trans form, no sizes, explicit count byte 0, non-final");
             assert!(rd(19) == 0, "footer: key count");
             assert!(rd(27) == 18, "footer: root address = last byte of the root node");
+        }
+        Err(e) => {
+            core::mem::forget(e);
+            assert!(false);
+        }
+    }
+}
+
+/// Header only (cheap): what Builder::new_type has written before any key.
+#[kani::proof]
+#[kani::unwind(10)]
+fn c09_header() {
+    let ty: u64 = kani::any();
+    match Builder::verif_new_type_with_cache(ArraySink::<16>::new(0), ty, 0, 0) {
+        Ok(b) => {
+            assert!(b.bytes_written() == 16);
+            let buf = &b.get_ref().buf;
+            let v = u64::from_le_bytes([buf[0], buf[1], buf[2], buf[3], buf[4], buf[5], buf[6], buf[7]]);
+            let t = u64::from_le_bytes([buf[8], buf[9], buf[10], buf[11], buf[12], buf[13], buf[14], buf[15]]);
+            assert!(v == 3, "header: version 3");
+            assert!(t == ty, "header: requested type");
+            core::mem::forget(b);
         }
         Err(e) => {
             core::mem::forget(e);
